@@ -7,7 +7,7 @@ pub mod progen;
 pub mod refl;
 pub mod replay;
 pub mod props;
-pub mod report;
+pub use lqv_report as report;
 pub mod run;
 pub mod val;
 
